@@ -145,7 +145,19 @@ def c08(report):
     jobs = cf_jobs(CF_LPS, report.tier, report.seed, ops=FULL_OPS | {"warm_start"}, checks=("state", "shape"))
     ecf.defer(jobs, by_clause("shape", "state.keys", "state.arms"))
     nb_side(report, ("shape", "trace.post.arms", "trace.Inv_C08", "predict.exception"))
-    ljobs = life_jobs(report.tier, report.seed, FULL_OPS | {"warm_start"}, over=dict(QueryRows={1, 2, 3}), tag="-c08", checks=("state", "shape"))
+    arm_rejects = {"add_duplicate", "add_none", "add_nan", "add_inf", "remove_unknown", "add_binarizer_non_ts",
+                   "add_binarizer_not_callable"}
+    ljobs = life_jobs(report.tier, report.seed, FULL_OPS | {"warm_start", "reject"}, over=dict(QueryRows={1, 2, 3}), tag="-c08",
+                      checks=("state", "shape"), rejects=True)
+    for job in ljobs:
+        job["consts"]["RejectKinds"] = set(job["consts"]["RejectKinds"]) & arm_rejects
+    # arm churn: long alternations of add_arm / remove_arm / predict (a removed arm must never come back)
+    churn = life_jobs(report.tier, report.seed + 2, {"fit", "add_arm", "remove_arm", "predict", "predict_expectations"},
+                      over=dict(QueryRows={1, 3}, Offsets={0}, MaxChunk=2), depth=7 if report.tier == "thorough" else 6,
+                      tag="-churn", checks=("state", "shape"), sims=False, only=lambda c: c[1] is None)
+    for job in churn:
+        job["consts"]["MinFit"] = 2
+    ecf.defer(churn, by_clause("shape", "state.keys", "state.arms", "state.policy", "call.exception"))
     ecf.defer(ljobs, by_clause("shape", "state.keys", "state.arms", "state.policy", "call.exception"))
     ecf.flush(report)
     suite_leg(report, by_clause("suite.result", "suite.post.arms"))
@@ -162,6 +174,12 @@ def c09(report):
     nb_side(report, ("argmax", "nonhood"), lps=("eg", "ucb1", "ts", "softmax"))
     ljobs = life_jobs(report.tier, report.seed, FULL_OPS | {"warm_start"}, over=dict(QueryRows={1, 3}), tag="-c09", checks=("argmax",))
     ecf.defer(ljobs, by_clause("argmax"))
+    churn = life_jobs(report.tier, report.seed + 2, {"fit", "add_arm", "remove_arm", "predict"},
+                      over=dict(QueryRows={1, 3}, Offsets={0}, MaxChunk=2), depth=7 if report.tier == "thorough" else 6,
+                      tag="-churn", checks=("argmax",), sims=False, only=lambda c: c[1] is None)
+    for job in churn:
+        job["consts"]["MinFit"] = 2
+    ecf.defer(churn, by_clause("argmax"))
     ecf.flush(report)
     _nontrivial_from_counts(report, "cf.queries")
 
@@ -311,7 +329,7 @@ def nb_variants(tier, seed, nps, want=2, always=()):
     return out
 
 
-NB_TRACE = ("trace.", "result.nbhd", "nonhood", "predict.exception")
+NB_TRACE = ("trace.", "result.nbhd", "nonhood", "predict.exception", "call.exception")
 
 
 def nb_filter(nps, *prefixes):
